@@ -123,9 +123,77 @@ def s_part(ck, tier, rng):
     return cases, bad
 
 
+ALERT_HEADER = ("From TV Require Import Base Model.Wiring Model.Ticker Model.Component Model.Sim Model.Alert Oracle.AlertReplay "
+                "Proofs.AlertP Proofs.AlertReplayP.")
+ALERT_REASONS = {30: "a step of the real schedulers is not a step of the alert protocol", 31: "a system simulation asked for another callback than the protocol's",
+                 32: "the master ticked components that are not due at the earliest wakeup", 33: "a nested tick left out a pending interrupt or a due wakeup",
+                 34: "an interrupt is owed but not queued up to the master", 35: "the nesting is not a tree"}
+
+
+def alert_run(cfg, devs, stim, pol, bseed, initial=0):
+    from props import c08
+    r = slevel.run_internal(cfg, devs, (1, 1), initial, stim, c08.T_END, bus=c08.make_bus(pol, bseed, cfg))
+    return r, (None if r["alert"] is None else slevel.render_alert(cfg, initial, r["alert"]))
+
+
+def alert_part(ck, tier, rng):
+    """whole nested simulations on the delaying bus with interrupts raised at any moment -- several at one instant, so that all
+    but the first arrive while the ticks the first one caused are running, at any depth -- recorded step by step and replayed
+    in the alert protocol (Oracle/AlertReplay.v): every step of the real schedulers must be a step of Model/Alert.v"""
+    from props import c08
+    n, k = {"quick": (30, 2), "thorough": (300, 4)}[tier]
+    cases, terms = [], []
+    skipped = 0
+    for _ in range(n):
+        cfg = slevel.gen_config(rng, depth=rng.choice([1, 2, 2, 3]), p_sys=0.6)
+        devs = slevel.gen_devs(rng, cfg, (0, 0, 1, 2, 3, 4, 5))
+        dl = slevel.devices_of(cfg)
+        stim, _sim = c08.gen_stim(rng, cfg)
+        stim = sorted(set(stim) | {(t, rng.choice(dl)) for (t, _) in stim if rng.random() < 0.7})
+        initial = rng.choice([0, 0, 5_000_000_000])
+        for _ in range(k):
+            pol, bseed = rng.choice(c08.POLICIES), rng.randrange(10 ** 6)
+            r, term = alert_run(cfg, devs, stim, pol, bseed, initial)
+            if term is None or r["error"] or r["errors"]:
+                skipped += 1
+                continue
+            cases.append(dict(cfg=cfg, devs=devs, stim=stim, schedule=[pol, bseed], initial=initial, run=r))
+            terms.append(term)
+    bad = run_shards(PID + "_alert", ALERT_HEADER, "alert_case", "check_alert_case", terms, shard_size=6)
+    events = racing = 0
+    for c in cases:
+        ev = c["run"]["alert"]
+        running = 0
+        mid = 0
+        for e in ev:
+            if e[0] == "EMTick":
+                running = 1
+            elif e[0] == "EMDone":
+                running = 0
+            elif e[0] in ("EIntTop", "EIntNested") and running:
+                mid += 1
+        events += len(ev)
+        racing += mid
+        ck.count("alert:" + json.dumps([{str(a): b for a, b in c["cfg"].items()}, c["stim"], c["schedule"], c["initial"]], sort_keys=True), mid >= 1)
+    ck.coverage.update(alert_replayed_runs=len(cases), alert_events=events, alert_interrupts_handled_while_a_tick_was_running=racing,
+                       alert_runs_not_rendered=skipped, alert_disagreements=len(bad))
+    if bad:
+        i = min(bad)
+        c = cases[i]
+        code = bad[i][0]
+        ck.report("real-schedulers-leave-the-alert-protocol",
+                  f"whole simulation on the delaying bus ({c['schedule'][0]}), event {bad[i][1] if len(bad[i]) > 1 else '?'}: {ALERT_REASONS.get(code, code)}",
+                  dict(kind="alert", cfg={str(a): b for a, b in c["cfg"].items()}, devs={str(a): list(b) for a, b in c["devs"].items()},
+                       stim=[list(x) for x in c["stim"]], schedule=c["schedule"], initial=c["initial"], codes=bad[i],
+                       events_around=[list(map(str, e)) for e in c["run"]["alert"][max(0, (bad[i][1] if len(bad[i]) > 1 else 0) - 12):(bad[i][1] if len(bad[i]) > 1 else 0) + 2]],
+                       broken="correspondence Model/Alert.v vs the real schedulers on the delaying bus; C07_no_interrupt_lost_at_any_depth"),
+                  no_input=(code != 34))
+
+
 def main(tier, seed):
     ck = Check(PID, tier, seed, "Props.C07", ["Model/Master.v", "Model/WakeFlag.v", "Oracle/MasterOracle.v", "Oracle/SimOracle.v",
-                                              "Proofs/MasterP.v", "Proofs/WakeFlagP.v", "Model/PyLib.v", "Gen/SourceFuns.v", "Proofs/GenInterruptP.v", "Props/C07.v"])
+                                              "Proofs/MasterP.v", "Proofs/WakeFlagP.v", "Model/PyLib.v", "Gen/SourceFuns.v", "Proofs/GenInterruptP.v",
+                                              "Model/Alert.v", "Proofs/AlertP.v", "Oracle/AlertReplay.v", "Proofs/AlertReplayP.v", "Props/C07.v"])
     ck.build_and_audit()
     rng = random.Random(seed)
     ck.rule = ("(a) real MasterScheduler driven message by message on virtual time with random component-playing scripts "
@@ -134,9 +202,13 @@ def main(tier, seed):
                "'no positive sleep while an interrupt is owed'; non-trivial = script with a mid-tick interrupt.  "
                "(b) whole flat/nested simulations, one interrupt injected at event-loop step k for every k of the run "
                "(start-up, initial tick, idle, later ticks) and every device at every depth; non-trivial = injected while "
-               "other updates happen at the same instant")
+               "other updates happen at the same instant.  "
+               "(c) whole nested simulations on the delaying bus with several interrupts at one instant (all but the first "
+               "arrive while ticks are running, at any depth), every step of the schedulers recorded and replayed in the alert "
+               "protocol Model/Alert.v; non-trivial = an interrupt was handled while a tick was running")
     mcases, mbad = m_part(ck, tier, rng)
     scases, sbad = s_part(ck, tier, rng)
+    alert_part(ck, tier, rng)
     done = set()
     for i in sorted(mbad):
         for code in mbad[i]:
@@ -170,6 +242,18 @@ def main(tier, seed):
 
 
 def replay(rp):
+    if rp["kind"] == "alert":
+        cfg = {int(a): dict(order=[(c, kk) for c, kk in v["order"]], conns=[tuple(x) for x in v["conns"]]) for a, v in rp["cfg"].items()}
+        devs = {int(a): tuple(v) for a, v in rp["devs"].items()}
+        r, term = alert_run(cfg, devs, [tuple(x) for x in rp["stim"]], rp["schedule"][0], rp["schedule"][1], rp.get("initial", 0))
+        bad = run_shards("replay", ALERT_HEADER, "alert_case", "check_alert_case", [term]) if term else {0: ["not rendered"]}
+        print("configuration:", cfg, "stimuli:", rp["stim"], "schedule:", rp["schedule"])
+        codes = bad.get(0, [])
+        if len(codes) > 1:
+            for j, e in enumerate(r["alert"][max(0, codes[1] - 12):codes[1] + 2]):
+                print("  ", max(0, codes[1] - 12) + j, e)
+        print("codes:", codes)
+        return 1 if bad else 0
     if rp["kind"] == "injection":
         cfg = {int(k): dict(order=[(c, (k2 if k2 == "dev" else int(k2))) for c, k2 in v["order"]],
                             conns=[tuple(x) for x in v["conns"]]) for k, v in rp["cfg"].items()}
